@@ -549,4 +549,48 @@ def handle (args : List String) : String :=
     | _ => "bad-field"
   | _ => "bad-op"
 
+/-! ### Aliasing patterns (`C03 alias <pat> <line>`)
+
+The Go entry points take pointers: the receiver (where the result is written), the point operands and the scalars may be the
+SAME object (`p.ScalarMultiplication(&p, s)`, `p.JointScalarMultiplication(&p, &q, s, s)` …). The specification is BY VALUE:
+the result is that of the same call on distinct objects holding the same values, whatever the receiver held before. The
+harness executes `<line>` with the objects shared as `<pat>` says; the model answers `<line>` and ignores `<pat>`
+(`Props/C03.lean`: `C03_alias_by_value`, `C03_alias_irrelevant`).
+
+`<pat>`: `d` all distinct, fresh receiver · `dirty` all distinct, the receiver holds another point before the call ·
+`rp` / `rq` receiver is the first / second point operand · `pq` the two point operands are one object · `rpq` all three ·
+suffix `+st`: the two scalars are one `*big.Int`. Patterns that identify two operands need equal values on the line. -/
+
+/-- point pattern and "scalars shared" flag of a pattern token -/
+def aliasSplit (pat : String) : String × Bool :=
+  match [("d+st", "d"), ("dirty+st", "dirty"), ("rp+st", "rp"), ("rq+st", "rq"), ("pq+st", "pq"), ("rpq+st", "rpq")].lookup pat with
+  | some p => (p, true)
+  | none => (pat, false)
+
+/-- is `pat` a pattern the line admits (purely syntactic: op kind, variant, equal tokens where two operands are one object) -/
+def aliasOK (pat : String) (line : List String) : Bool :=
+  let (pp, st) := aliasSplit pat
+  match line with
+  | op :: v :: rest =>
+    if op == "sm" || op == "smx" then
+      !st && ((["aff", "jac"].contains v && ["d", "dirty", "rp"].contains pp) ||
+              (["base", "basejac"].contains v && ["d", "dirty"].contains pp))
+    else if op == "te" || op == "tex" then
+      !st && ["aff", "proj", "ext"].contains v && ["d", "dirty", "rp"].contains pp
+    else if op == "joint" || op == "jointx" then
+      match rest.drop 7 with
+      | [e1, P, e2, Q, s1, s2] =>
+        (!st || s1 == s2) &&
+        (if v == "gen" then ["d", "dirty", "rp", "rq"].contains pp || (["pq", "rpq"].contains pp && e1 == e2 && P == Q)
+         else v == "base" && ["d", "dirty"].contains pp)
+      | _ => false
+    else false
+  | _ => false
+
+/-- `C03 …` with the aliasing wrapper: the answer to `alias <pat> <line>` is the answer to `<line>` -/
+def handleTop (args : List String) : String :=
+  match args with
+  | "alias" :: pat :: line => if aliasOK pat line then handle line else "bad-op"
+  | _ => handle args
+
 end GV.ScalarMul
